@@ -278,12 +278,13 @@ func (s *requestStream) ReadResponse() (*http.Response, error) {
 		res.Uncompressed = true
 	} else if s.AutoDecompression {
 		contentEncoding := res.Header.Get("Content-Encoding")
-		if contentEncoding != "" {
+		// only touch the response if the content coding is supported
+		if cr := compress.NewCompressReader(respBody, contentEncoding); cr != nil {
 			res.Header.Del("Content-Encoding")
 			res.Header.Del("Content-Length")
 			res.ContentLength = -1
 			res.Uncompressed = true
-			res.Body = compress.NewCompressReader(respBody, contentEncoding)
+			res.Body = cr
 		}
 	} else {
 		s.responseBody = respBody
